@@ -134,6 +134,12 @@ func (db *DB) Merge() error {
 			return err
 		}
 	}
+	// 重写过程中切换下来的文件同样需要关闭, mmap 实现下关闭时才会将文件截断为真实大小
+	for _, file := range mergeDB.olderFiles {
+		if err := file.Close(); err != nil {
+			return err
+		}
+	}
 	// 重写后的文件数量可能少于参与 merge 的文件数量, 为剩余的文件 id 创建空文件,
 	// 使参与 merge 的每个文件 id 均有对应的替换文件, 加载时只需逐个替换, 可安全重试
 	for fileID := mergeDB.activeFile.ID + 1; fileID < nonMergeFileId; fileID++ {
